@@ -273,6 +273,10 @@ class BaseEdge(ABC):
         if isinstance(self.estimate, BasePose):
             return isinstance(other.estimate, BasePose) and self.estimate.equals(other.estimate, tol)
 
+        # Estimates of different shapes are never equal
+        if isinstance(other.estimate, BasePose) or np.shape(self.estimate) != np.shape(other.estimate):
+            return False
+
         # fmt: off
-        return not isinstance(other.estimate, BasePose) and np.linalg.norm(self.estimate - other.estimate) / max(np.linalg.norm(self.estimate), tol) < tol
+        return np.linalg.norm(self.estimate - other.estimate) / max(np.linalg.norm(self.estimate), tol) < tol
         # fmt: on
